@@ -7,6 +7,7 @@ import (
 	"math/rand"
 	"strings"
 	"sync"
+	"sync/atomic"
 	"time"
 
 	"github.com/samber/ro"
@@ -70,6 +71,14 @@ func plan(tier string, seed int64) []driver.Case {
 			for _, order := range []string{"AB", "BA", "ABA", "ABC"} {
 				cases = append(cases, driver.Case{ID: fmt.Sprintf("opvalue-curried/%s/%s/%s", cu.name, sc, order), P: map[string]string{"kind": "opvalue-curried", "op": cu.name, "script": sc, "order": order}})
 			}
+		}
+	}
+	// recipes whose choice is made per subscription: Defer(Iif(cond, a, b)) and Defer(factory) with a condition that
+	// reads external state the harness changes between subscriptions - the n-th subscription of an old pipeline
+	// value takes the branch a freshly built pipeline would take now
+	for _, form := range []string{"Defer(Iif)", "Defer(factory)"} {
+		for _, flags := range []string{"TF", "FT", "TTF", "FTFT", "TFFT"} {
+			cases = append(cases, driver.Case{ID: fmt.Sprintf("lazy-choice/%s/%s", form, flags), P: map[string]string{"kind": "lazy-choice", "form": form, "flags": flags}})
 		}
 	}
 	// operators configured with a RELATIVE duration: the duration counts from each item of each subscription,
@@ -591,6 +600,55 @@ func runRelativeDuration(c driver.Case) driver.Result {
 	return res
 }
 
+// runLazyChoice: see the plan. The sources are cold and deterministic; only the flag changes.
+func runLazyChoice(c driver.Case) driver.Result {
+	res := driver.Result{Verdict: driver.Held}
+	var flag atomic.Bool
+	build := func() (ro.Observable[int], *src.Source, *src.Source) {
+		a := src.New("a", src.Script{{K: rec.Next, V: 1}, {K: rec.Next, V: 2}, {K: rec.Complete}})
+		b := src.New("b", src.Script{{K: rec.Next, V: 7}, {K: rec.Complete}})
+		if c.Get("form") == "Defer(Iif)" {
+			return ro.Defer(ro.Iif(func() bool { return flag.Load() }, a.Observable(), b.Observable())), a, b
+		}
+		return ro.Defer(func() ro.Observable[int] {
+			if flag.Load() {
+				return a.Observable()
+			}
+			return b.Observable()
+		}), a, b
+	}
+	flags := c.Get("flags")
+	flag.Store(flags[0] == 'T')
+	old, oa, ob := build()
+	if oa.Subscribed.Load()+ob.Subscribed.Load() != 0 {
+		res.Verdict, res.Key = driver.Violated, "C12/"+c.Get("form")+"/source-subscribed-at-construction"
+		res.Msg = c.Get("form") + ": building the pipeline subscribed a source"
+		return res
+	}
+	for i := 0; i < len(flags); i++ {
+		flag.Store(flags[i] == 'T')
+		fresh, _, _ := build()
+		rf, ro_ := rec.New("fresh"), rec.New("old")
+		s1, p1 := subscribeOnce(catalog.P(fresh), rf, 0)
+		s2, p2 := subscribeOnce(catalog.P(old), ro_, 0)
+		if p1 != "" || p2 != "" {
+			return driver.Result{Verdict: driver.Inconclusive, Key: "subscribe-problem", Msg: p1 + p2, Dirty: true}
+		}
+		unsub(s1)
+		unsub(s2)
+		res.Events += int64(rf.Len() + ro_.Len())
+		if rf.TraceString() != ro_.TraceString() {
+			res.Verdict, res.Key = driver.Violated, "C12/"+c.Get("form")+"/resubscription-differs-from-fresh-pipeline"
+			res.Msg = fmt.Sprintf("%s with a condition reading external state, states %s: subscription #%d of the pipeline built at the beginning delivered [%s], the first subscription of a pipeline built now delivers [%s]", c.Get("form"), flags, i+1, ro_.TraceString(), rf.TraceString())
+			return res
+		}
+	}
+	res.Nontrivial = true
+	res.Sig = "lazy-choice/" + c.Get("form") + "/" + flags
+	res.Sample = map[string]any{"recipe": c.Get("form"), "condition_states": flags}
+	return res
+}
+
 func runOpValue(c driver.Case) driver.Result {
 	e := catalog.Get(c.Get("entry"))
 	order := c.Get("order")
@@ -691,6 +749,8 @@ func runCase(c driver.Case) driver.Result {
 		return runOpValueCurried(c)
 	case "relative-duration":
 		return runRelativeDuration(c)
+	case "lazy-choice":
+		return runLazyChoice(c)
 	}
 	return runResub(c)
 }
